@@ -19,6 +19,7 @@
 import AxVerif.Lemmas.Frame
 import AxVerif.Props.C08
 import AxVerif.Props.C09
+import AxVerif.Lemmas.NoPanic
 namespace Ax.C19
 open Ax
 
@@ -138,6 +139,50 @@ theorem step_unimplemented_err (hooks : HookTable) (decode) (s : Machine) (w : L
   have hs' : i.mnem ∈ supportedMnemonics := by simpa using hs
   simp [step, hf, hl, stepBody, hw, hd, this, stepDecoded, hs', hnh, runEntry, stepExec,
     exec_unimplemented_err _ i _ hu]
+
+
+/-! ## why a handler can crash -/
+
+/-- **Handlers crash only through the decoder's answer.**  For every instruction form and every state: if the handler's
+    outcome is a crash then memory is ill-formed (never: `exec_stores_need_W` and the area theorems keep it well-formed),
+    or the decoded instruction does not have the operand shape the form expects (four enumerated cases), or a flag mask
+    asks for an unimplemented flag.  No arithmetic, shift, index, register or memory primitive is a crash site. -/
+theorem handler_crash_causes (hh : HasHooks) (i : Instr) (s : Machine) (h : exec hh i s = .panic) : CrashCause i s :=
+  exec_crash h
+
+/-- with well-formed memory the causes are properties of the decoded instruction and of constant flag masks alone -/
+theorem handler_crash_not_state (hh : HasHooks) (i : Instr) (s : Machine) (hwf : s.mem.WF) (h : exec hh i s = .panic) :
+    (∃ idx, instructionOperand i idx = .panic) ∨
+    (∃ idx o, instructionOperand i idx = .ok o ∧ o.toReg = .panic) ∨
+    (∃ idx m, instructionOperand i idx = .ok (.memory m) ∧ ¬ MemOpOk m) ∨
+    (¬ ∃ rs r, i.op0 = some (.reg rs) ∧ rs.toSupported = .ok r) ∨
+    (∃ set : BitVec 64, set ≠ FLAGS_UNAFFECTED ∧ set &&& FLAGS_ASSERTED ≠ 0) := by
+  cases exec_crash h with
+  | memory hm => exact absurd hwf hm
+  | operand idx h1 => exact Or.inl ⟨idx, h1⟩
+  | notReg idx o h1 h2 => exact Or.inr (Or.inl ⟨idx, o, h1, h2⟩)
+  | addrReg idx m h1 h2 => exact Or.inr (Or.inr (Or.inl ⟨idx, m, h1, h2⟩))
+  | op0 h1 => exact Or.inr (Or.inr (Or.inr (Or.inl h1)))
+  | flags set h1 => exact Or.inr (Or.inr (Or.inr (Or.inr ⟨set, h1⟩)))
+
+/-- an operand lookup crashes only for a missing operand or a register ax does not know -/
+theorem operand_panic_iff (i : Instr) (idx : Nat) :
+    instructionOperand i idx = .panic ↔
+      (i.ops[idx]? = none ∨ (i.ops[idx]? = some .mem ∧ (i.base = .unsupported ∨ i.index = .unsupported)) ∨
+       (∃ r, i.ops[idx]? = some (.reg r) ∧ (r = .none ∨ r = .unsupported))) := by
+  unfold instructionOperand
+  cases ho : i.ops[idx]? with
+  | none => simp
+  | some o =>
+    cases o with
+    | mem =>
+      cases hb : i.base with
+      | none => cases hi : i.index <;> cases hs : i.seg <;> simp [hb, hi, hs]
+      | unsupported => cases hi : i.index <;> cases hs : i.seg <;> simp [hb, hi, hs]
+      | reg r => cases r <;> cases hi : i.index <;> cases hs : i.seg <;> simp [hb, hi, hs]
+    | reg r => cases r <;> simp [RegSpec.toSupported]
+    | imm sz d => simp
+    | other => simp
 
 /-! ## Non-vacuity -/
 set_option maxRecDepth 100000 in
